@@ -20,7 +20,7 @@ DEFAULT_WEIGHTS = {
 
 
 class Gen:
-    def __init__(self, rng, weights=None, max_conns=5, uids=(0,), fdpass=False):
+    def __init__(self, rng, weights=None, max_conns=5, uids=(0,), fdpass=False, names=None):
         self.r = rng
         self.w = dict(DEFAULT_WEIGHTS)
         if weights:
@@ -35,6 +35,7 @@ class Gen:
         self.rules = {}       # cid -> list of rule texts added
         self.stats = {}
         self.fdpass = fdpass
+        self.names = list(names) if names else NAMES
 
     # ---- helpers
     def count(self, k):
@@ -87,7 +88,7 @@ class Gen:
         r = self.r.random()
         uniques = [v["unique"] for v in self.open.values() if v["unique"]]
         if r < 0.45:
-            return self.r.choice(NAMES)
+            return self.r.choice(self.names)
         if r < 0.8 and uniques:
             return self.r.choice(uniques)
         if r < 0.9:
@@ -134,11 +135,11 @@ class Gen:
         c = self.open[cid]
         self.count(k)
         if k == "request":
-            name = self.r.choice(NAMES) if self.r.random() < 0.9 else self.r.choice(BAD_NAMES)
+            name = self.r.choice(self.names) if self.r.random() < 0.9 else self.r.choice(BAD_NAMES)
             flags = self.r.choice([0, 1, 2, 3, 4, 5, 6, 7]) if self.r.random() < 0.93 else self.r.choice([8, 0x10 | 3, 0xffffffff, 0x80000004])
             self.bus_call(cid, "RequestName", "su", [name, flags])
         elif k == "release":
-            name = self.r.choice(NAMES) if self.r.random() < 0.9 else self.r.choice(BAD_NAMES + ([c["unique"]] if c["unique"] else []))
+            name = self.r.choice(self.names) if self.r.random() < 0.9 else self.r.choice(BAD_NAMES + ([c["unique"]] if c["unique"] else []))
             self.bus_call(cid, "ReleaseName", "s", [name])
         elif k == "query":
             which = self.r.choice(["GetNameOwner", "NameHasOwner", "ListNames", "ListQueuedOwners", "GetConnectionUnixUser"])
